@@ -26,6 +26,34 @@ def run(prop, quick=(8, 40), thorough=(16, 500), extra=None, require=(), maxstmt
                 R.inconc("array index family: %s" % err[-300:])
             else:
                 R.merge(res[prop])
+    if prop == "C06":
+        # two runs of the same program in two interpreters (different hash seed, different secret inputs)
+        npr = 60 if tier == "quick" else 600
+        pairs = 2 if tier == "quick" else 6
+        jobs2 = []
+        for k in range(pairs):
+            for vec, hs in ((0, "1"), (1, str(7 + k))):
+                jobs2.append(dict(seed="%d/C06/two/%d" % (common.seed(), k), nprogs=npr, vec=vec, pair=k, env={"PYTHONHASHSEED": hs}, keep_sources=(vec == 0)))
+        got = {}
+        for job, res, err in shard.run_jobs("vf.progwork", "fingerprints", jobs2, timeout=1800):
+            if err:
+                R.inconc("two-interpreter family: %s" % err[-300:])
+            else:
+                got[(job["pair"], job["vec"])] = res
+        for k in range(pairs):
+            a, b = got.get((k, 0)), got.get((k, 1))
+            if not a or not b:
+                continue
+            for i, (fa, fb) in enumerate(zip(a["fingerprints"], b["fingerprints"])):
+                if fa is None or fb is None:
+                    R.count("two_interpreter_pairs_raised")
+                    continue
+                R.count("two_interpreter_pairs_compared")
+                R.count("trace_events_compared", fa[1])
+                R.case(cell="two-interpreters|%s" % ("block" if i % 2 == 0 else "grammar"), key=("two", k, i), nontrivial=fa[1] > 0)
+                if fa[0] != fb[0]:
+                    R.violation("trace-differs-between-interpreters", "the same program emits different constraint systems in two interpreters (hash seeds, inputs %s vs %s; %d vs %d events)" % (
+                        fa[2], fb[2], fa[1], fb[1]), src=(a.get("sources") or [None] * (i + 1))[i], inputs_a=fa[2], inputs_b=fb[2])
     if prop in ("C01", "C04"):
         for job, res, err in shard.run_jobs("vf.progwork", "suite_under_monitors", [dict(props=[prop])], timeout=900):
             if err:
